@@ -78,7 +78,30 @@ func truth() {
 }
 
 func nearMiss(r *rng.R, n string) string {
-	switch r.Intn(6) {
+	switch r.Intn(9) {
+	case 6:
+		// the tail of the path after one of its slashes ("zoo/fn.F001", "fn.F001"): a different name
+		if k := strings.Count(n, "/"); k > 0 {
+			cut := 1 + r.Intn(k)
+			rest := n
+			for ; cut > 0; cut-- {
+				rest = rest[strings.Index(rest, "/")+1:]
+			}
+			return rest
+		}
+		return "x/" + n
+	case 7:
+		// the bare symbol without its package, or a longer path that ends in the real one
+		if r.Intn(2) == 0 {
+			return n[strings.LastIndex(n, ".")+1:]
+		}
+		return "example.org/vendor/" + n
+	case 8:
+		// a proper prefix that ends at a separator
+		if i := strings.LastIndexAny(n, "./"); i > 0 {
+			return n[:i]
+		}
+		return n + "."
 	case 0:
 		return n[:len(n)-1]
 	case 1:
